@@ -65,6 +65,15 @@ def gen_case(rng, k):
     return {"stimuli": stimuli, "T": T, "seed": rng.randint(0, 10 ** 6), "marker": marker}
 
 
+def gen_min_isi_case(rng):
+    """Poisson trains whose rate is so high that the minimum interval (1E-6) binds for most draws"""
+    T = rng.choice([1e-5, 2e-5, 1.5e-5, 4e-6])
+    stimuli = [{"type": "poisson_generator", "rate": rng.choice(["2e6", "5000000.", "1e7", "3.3e5", "1e6"]), "variables": [rng.choice(NAMES) for _ in range(rng.choice([1, 2]))]}]
+    if rng.random() < 0.4:
+        stimuli.append({"type": "poisson_generator", "rate": rng.choice(["4e6", "250000"]), "variables": [stimuli[0]["variables"][0]]})
+    return {"stimuli": stimuli, "T": T, "seed": rng.randint(0, 10 ** 6), "marker": "__d"}
+
+
 def impl_run(task):
     import random as pyrandom
     from odetoolbox.config import Config
@@ -173,7 +182,7 @@ def run(ctx):
     rng = random.Random(ctx["seed"] * 101 + 15)
     quick = ctx["tier"] == "quick"
     n = 400 if quick else 5000
-    cases = [gen_case(rng, k) for k in range(n)]
+    cases = [gen_case(rng, k) for k in range(n)] + [gen_min_isi_case(rng) for _ in range(30 if quick else 400)]
     # fixed corpus: the boundary and single/empty list cases
     cases[:0] = [
         {"stimuli": [{"type": "list", "list": "5E-3", "variables": ["I'"]}], "T": 0.1, "seed": 1, "marker": "__d"},
